@@ -263,6 +263,7 @@ type SliceV struct {
 	BaseLens *Term
 	ViewTag  int   // for sub-slice views (Tag == -1): tag of the parent backing array and the offset into it
 	ViewOff  *Term
+	FieldArr map[string]*Term // symbolic slices of structs with scalar fields: one array per field
 }
 
 type StructV struct {
@@ -411,7 +412,19 @@ func (s *SliceV) elemAt(i *Term) Val {
 		}
 		return inner
 	case "struct":
-		panic(unsupported("symbolic slice of structs"))
+		if s.FieldArr == nil {
+			panic(unsupported("symbolic slice of structs"))
+		}
+		f := map[string]Val{}
+		for _, fd := range s.Elem.Fields {
+			t := Select(s.FieldArr[fd.Name], i)
+			if fd.K.K == "obj" {
+				f[fd.Name] = &ObjV{K: fd.K, ID: t, Ghost: map[string]Val{}}
+			} else {
+				f[fd.Name] = SV{T: t}
+			}
+		}
+		return &StructV{K: s.Elem, F: f}
 	case "obj":
 		return &ObjV{K: s.Elem, ID: Select(s.Arr, i), Ghost: map[string]Val{}}
 	}
@@ -621,6 +634,13 @@ func mergeVal(c *Term, a, b Val) Val {
 			return &SliceV{Elem: x.Elem, Len: x.Len, Vec: nv, IsV: true, Tag: tag}
 		}
 		xm, ym := x.materialize(), y.materialize()
+		if xm.FieldArr != nil && ym.FieldArr != nil {
+			nf := map[string]*Term{}
+			for k, a := range xm.FieldArr {
+				nf[k] = Ite(c, a, ym.FieldArr[k])
+			}
+			return &SliceV{Elem: x.Elem, Len: Ite(c, xm.Len, ym.Len), FieldArr: nf}
+		}
 		r := &SliceV{Elem: x.Elem, Len: Ite(c, xm.Len, ym.Len), Arr: Ite(c, xm.Arr, ym.Arr)}
 		if xm.Lens != nil && ym.Lens != nil {
 			r.Lens = Ite(c, xm.Lens, ym.Lens)
@@ -721,6 +741,14 @@ func sameVal(a, b Val) bool {
 				}
 			}
 			return true
+		}
+		if len(x.FieldArr) != len(y.FieldArr) {
+			return false
+		}
+		for k, a := range x.FieldArr {
+			if y.FieldArr[k] != a {
+				return false
+			}
 		}
 		return x.Len == y.Len && x.Arr == y.Arr && x.Lens == y.Lens && x.Lit == y.Lit
 	case *StructV:
